@@ -62,6 +62,36 @@ def evaluate(cls, wd, feats=()):
             [impl.canon_feature(f) for f in t.features])
 
 
+def inner_site_instance(rng, cls, lower=None):
+    """an instance of the class structure with a further recognition site of its own cutter placed inside
+    the wildcard run (i.e. inside the target of a module / the placeholder of a vector), optionally spelt
+    in lower case"""
+    pat = cls.structure()
+    site = cls.cutter.site
+    extra = rng.choice([site, gen.rc(site)])
+    mode = lower if lower is not None else rng.choice(["upper", "site-lower", "all-lower", "mixed"])
+    out = []
+    done = False
+    for t in gen.tokens(pat):
+        if t[0] in ("open", "close"):
+            continue
+        if t[0] == "cls":
+            out.append(rng.choice(gen.IUPAC[t[1]]))
+        else:
+            run = gen.rnd(rng, rng.randint(0, 6), gen.IUPAC[t[1]])
+            if not done and t[1] == "N":
+                e = extra.lower() if mode == "site-lower" else extra
+                run = gen.rnd(rng, rng.randint(2, 5)) + e + gen.rnd(rng, rng.randint(2 + abs(cls.cutter.ovhg) + 14, 24))
+                done = True
+            out.append(run)
+    wd = "".join(out) + gen.rnd_avoid(rng, rng.randint(0, 8), (site, gen.rc(site)))
+    if mode == "all-lower":
+        wd = wd.lower()
+    elif mode == "mixed":
+        wd = gen.recase(rng, wd, "mixed")
+    return wd
+
+
 def kit_instance(rng, cls, extra_sites=False, runlen=None):
     """a plasmid built around an instance of the class structure"""
     pat = cls.structure()
